@@ -14,6 +14,7 @@ case = {"rules": [rule...], "pipe": False|True|"state", "fmt": "default"|"test"|
  correlation rule {"k": "c", "refs": [positions], "gen": bool, "stage": "ok"|"pipe"|"fin"|"crash"}
 Rule number i is named r<i>; a rule with "as": j is the same document as rule j repeated (same name, title, content).
 """
+from impl.excname import exc_name
 from dataclasses import dataclass, field
 import yaml
 from sigma.collection import SigmaCollection
@@ -168,7 +169,7 @@ def collection(case, names, idxs, force_nogen=False):
 
 
 def err(e):
-    return {"exc": type(e).__name__, "sigma": isinstance(e, SigmaError)}
+    return {"exc": exc_name(e), "sigma": isinstance(e, SigmaError)}
 
 
 def closure(case, i):
@@ -248,7 +249,7 @@ def run_collection(case):
     pos = {id(r): k for k, r in enumerate(col.rules)}
     out["order"] = [int(n[1:]) for n in order]
     # records and references are identified by object identity (position in the collection), never by equality
-    out["errors"] = [[pos.get(id(r), -1), type(e).__name__] for r, e in be.errors]
+    out["errors"] = [[pos.get(id(r), -1), exc_name(e)] for r, e in be.errors]
     out["refpos"] = [[pos.get(id(ref.rule), -1) for ref in r.referenced_rules] for r in col.rules
                      if hasattr(r, "referenced_rules")]
     out["alone"] = [alone(case, names, i) for i in range(len(names))]
